@@ -59,6 +59,15 @@ def overwritten_accumulators(fn, rep, rule, fq):
                     read_after = any(isinstance(x, ast.Name) and x.id == var and isinstance(x.ctx, ast.Load) for later in blk[i + 1:] for x in ast.walk(later))
                     rep.instance(rule, f'{fq}: {var} (empty before the loop over {norm(st.iter, 40) if isinstance(st, ast.For) else "while"}): '
                                        f'accumulated={len(accum)} reassigned={len(plain)} read after the loop={read_after}')
+                    # "keep the best so far" (the reassignment is guarded by a test on the variable itself) is a selection, not an accumulation
+                    def guarded_by_itself(a):
+                        p_ = getattr(a, '_parent', None)
+                        while p_ is not None and p_ is not st:
+                            if isinstance(p_, ast.If) and any(isinstance(x, ast.Name) and x.id == var for x in ast.walk(p_.test)):
+                                return True
+                            p_ = getattr(p_, '_parent', None)
+                        return False
+                    plain = [a for a in plain if not guarded_by_itself(a)]
                     if plain and not accum and read_after:
                         out.append((var, st, plain[0]))
     return out
